@@ -94,18 +94,6 @@ instance (vol : PImg) (root : Nat) (qs : List Nat) : Decidable (LiveAscends vol 
   unfold LiveAscends
   cases vol.trees.find? (fun t => t.key == root) <;> simp only <;> infer_instance
 
-/-- no key that is to be sunk is in the live tree already (it would be: after a compaction that
-    died with an in-place leaf write durable and its manifest not; `replace_property_entry` then
-    deletes the entry first — not covered by the proofs) -/
-def LiveFresh (vol : PImg) (root : Nat) (qs : List Nat) : Prop :=
-  match vol.trees.find? (fun t => t.key == root) with
-  | some t => ∀ x ∈ t.leaves.flatMap (fun l => l.entries.filterMap id), ∀ q ∈ qs, x ≠ q
-  | none => True
-
-instance (vol : PImg) (root : Nat) (qs : List Nat) : Decidable (LiveFresh vol root qs) := by
-  unfold LiveFresh
-  cases vol.trees.find? (fun t => t.key == root) <;> simp only <;> infer_instance
-
 def NoSplit (cfg : Cfg) (m : Mem) (vol : PImg) : Prop := liveLeafLen vol m.proot + (cProps m).length ≤ cfg.leafCap
 
 instance (cfg : Cfg) (m : Mem) (vol : PImg) : Decidable (NoSplit cfg m vol) :=
@@ -113,15 +101,17 @@ instance (cfg : Cfg) (m : Mem) (vol : PImg) : Decidable (NoSplit cfg m vol) :=
 
 /-- the condition on a compaction: the keys to be sunk are distinct; sinking into a NEW tree may
     split leaves at will; sinking into the LIVE tree must not split its last leaf (an in-place split
-    of the live tree is finding C01-live-tree-in-place), the keys must be new to it and, when the
-    tree has an internal root, must lie above its keys (keys ascend with time) -/
+    of the live tree is finding C01-live-tree-in-place) and, when the tree has an internal root, the
+    keys must lie above its keys (keys ascend with time).  A live tree that is one leaf takes keys in
+    any order, and keys it already has (left by a compaction that died after an in-place leaf write
+    became durable) are replaced as `replace_property_entry` does. -/
 def NoLiveSplit (cfg : Cfg) (m : Mem) (vol : PImg) : Prop :=
   (cProps m).Nodup ∧
   (m.proot ≠ 0 → cProps m ≠ [] →
-    NoSplit cfg m vol ∧ LiveFresh vol m.proot (cProps m) ∧ (m.ptop = true → LiveAscends vol m.proot (cProps m)))
+    NoSplit cfg m vol ∧ (m.ptop = true → LiveAscends vol m.proot (cProps m)))
 
 instance (cfg : Cfg) (m : Mem) (vol : PImg) : Decidable (NoLiveSplit cfg m vol) :=
-  inferInstanceAs (Decidable (_ ∧ (_ → _ → _ ∧ _ ∧ (_ → _))))
+  inferInstanceAs (Decidable (_ ∧ (_ → _ → _ ∧ (_ → _))))
 
 theorem pairwise_lt_of_nodup {l : List Nat} (h : l.Pairwise (· ≤ ·)) (hn : l.Nodup) : l.Pairwise (· < ·) :=
   (h.and hn).imp (fun ⟨h1, h2⟩ => Nat.lt_of_le_of_ne h1 h2)
@@ -148,9 +138,13 @@ theorem trees_segParts (k need : Nat) (es : List Nat) : ∀ (js : List Nat) (p :
 theorem sinkEffs_treeE (key pid : Nat) : ∀ (qs xs : List Nat), ∀ e ∈ sinkEffs key pid xs qs, TreeE e
   | [], _, e, h => by simp [sinkEffs] at h
   | q :: qs, xs, e, h => by
-    simp only [sinkEffs, List.mem_cons] at h
-    rcases h with rfl | rfl | h
+    simp only [sinkEffs, List.mem_cons, List.mem_append] at h
+    rcases h with rfl | h | rfl | h
     · trivial
+    · unfold delEffs at h
+      split at h
+      · simp only [List.mem_singleton] at h; subst h; trivial
+      · simp at h
     · trivial
     · exact sinkEffs_treeE key pid qs _ e h
 
@@ -224,7 +218,8 @@ theorem pblk_treeA (cfg : Cfg) (hcap1 : 1 ≤ cfg.leafCap) (m : Mem) (vol : PImg
     (hnp : min ps.bm ps.pm.nextPage = nd) (hpos : 0 < nd) (hlive : live = m.proot) (hvol : vol.trees = p0.trees)
     (hnd : (cProps m).Nodup)
     (hns : m.proot ≠ 0 → cProps m ≠ [] →
-      NoSplit cfg m vol ∧ LiveFresh vol m.proot (cProps m) ∧ (lv.top = true → LiveAscends vol m.proot (cProps m)))
+      NoSplit cfg m vol ∧ (lv.top = true → LiveAscends vol m.proot (cProps m)))
+    (hcf : ∀ q ∈ cProps m, q ∉ covered)
     (hprops : ∀ q ∈ cProps m, q ∈ allowed) (hcov0 : live = 0 → covered = [])
     (htree : live ≠ 0 → ∃ t last, treeFind p0 live = some t ∧ LiveOK allowed covered lv t last) :
     ∃ nd' effs, PBlk p0 live allowed covered lv lo nd ps (treeA cfg m vol ps).1 effs nd' (treeA cfg m vol ps).2.1 ∧
@@ -281,7 +276,7 @@ theorem pblk_treeA (cfg : Cfg) (hcap1 : 1 ≤ cfg.leafCap) (m : Mem) (vol : PImg
           exact ⟨by rw [hflat2]; simpa using hq, (hbl2 q).mpr (Or.inl hq)⟩
     · -- the live tree: appends to its last leaf, with room
       have hl : live ≠ 0 := by rw [hlive]; exact hr
-      obtain ⟨hns', hfresh, hasc⟩ := hns hr hp
+      obtain ⟨hns', hasc⟩ := hns hr hp
       obtain ⟨t0, last, hf0, hok0⟩ := htree hl
       have hk0 : t0.key = live := (treeFind_key hf0).2
       have hfv : vol.trees.find? (fun t => t.key == m.proot) = some t0 := by
@@ -347,13 +342,8 @@ theorem pblk_treeA (cfg : Cfg) (hcap1 : 1 ≤ cfg.leafCap) (m : Mem) (vol : PImg
           have := hok0.covered q hq; rw [hflat] at this; exact this
         have hl1 : Leaf1 t0 last pid0 := ⟨hlv1, hino⟩
         obtain ⟨bs, hres⟩ := pblk_sink (p0 := p0) (live := live) (lo := lo) (allowed := allowed) (covered := covered) (lv := lv) cfg (cProps m) nd
-          ps t0 last pid0 hsk hnp hl1 hcap hnd
-          (by
-            have := hfresh
-            simp only [LiveFresh, hfv, hlv, entries_mkLeaves, hflat] at this
-            intro q hq hin
-            exact this q hin q hq rfl)
-          (Or.inr ⟨hXi, hsrt, hal, fun q hq => (hcv q hq).1, hprops⟩)
+          ps t0 last pid0 hsk hnp hl1 hcap
+          (Or.inr ⟨hXi, hsrt, hal, fun q hq => (hcv q hq).1, hprops, hcf⟩)
         refine ⟨_, _, by simpa [treeA, treeStartA, hpe, hr, hfind] using bs, sinkEffs_treeE _ _ _ _, fun h => absurd h hp,
           fun _ => ⟨?_, ?_⟩⟩
         · simp only [treeA, hpe, treeStartA, hr, if_false, Bool.false_eq_true, hfind, hres]
@@ -421,7 +411,7 @@ structure PagesPost (cfg : Cfg) (T : List Tx) (fs : FS) (m : Mem) (covered : Lis
 
 theorem pages_post_lv {cfg : Cfg} {T : List Tx} {fs : FS} {m : Mem} {cs : List CTx} {c : Nat}
     (hcap1 : 1 ≤ cfg.leafCap) (h : InvOpen T fs m cs c) (hns : NoLiveSplit cfg m fs.pv) (covered : List Nat) (lv : LiveP)
-    (hlv : lv.top = (scan cs).ptop)
+    (hlv : lv.top = (scan cs).ptop) (hcf : ∀ q ∈ cProps m, q ∉ covered)
     (hc2 : (scan cs).proot = 0 → covered = [])
     (hc3 : (scan cs).proot ≠ 0 → ∃ t last, treeFind fs.pd (scan cs).proot = some t ∧ LiveOK (allProps T) covered lv t last) :
     PagesPost cfg T fs m covered lv := by
@@ -458,7 +448,7 @@ theorem pages_post_lv {cfg : Cfg} {T : List Tx} {fs : FS} {m : Mem} {cs : List C
     omega
   obtain ⟨nd2, teffs, btree, hTE, hcase1, hcase2⟩ :=
     pblk_treeA (p0 := fs.pd) (live := m.proot) (lo := frontier fs.pd) (allowed := allProps T) (covered := covered) (lv := lv) cfg hcap1 m fs.pv (segA m (m.ps fs.pv)).2.1 nd1
-      bseg.sk bseg.np hpos rfl (by rw [hpv]) hns.1 (fun hr hp => by rw [hlv, ← h.mptop]; exact hns.2 hr hp) hprops (by rw [hlive]; exact hc2) (by rw [hlive]; exact hc3)
+      bseg.sk bseg.np hpos rfl (by rw [hpv]) hns.1 (fun hr hp => by rw [hlv, ← h.mptop]; exact hns.2 hr hp) hcf hprops (by rw [hlive]; exact hc2) (by rw [hlive]; exact hc3)
   obtain ⟨ba, _, hef⟩ := pblk_alloc_eq (p0 := fs.pd) (live := m.proot) (lo := frontier fs.pd) (allowed := allProps T) (covered := covered) (lv := lv)
     (treeA cfg m fs.pv (segA m (m.ps fs.pv)).2.1).2.1 btree.sk btree.np
   have bw := pblk_write (p0 := fs.pd) (live := m.proot) (lo := frontier fs.pd) (allowed := allProps T) (covered := covered) (lv := lv) ba.sk ba.np .stats
@@ -554,13 +544,14 @@ theorem pages_post_lv {cfg : Cfg} {T : List Tx} {fs : FS} {m : Mem} {cs : List C
 
 theorem pages_post {cfg : Cfg} {T : List Tx} {fs : FS} {m : Mem} {cs : List CTx} {c : Nat}
     (hcap1 : 1 ≤ cfg.leafCap) (h : InvOpen T fs m cs c) (hns : NoLiveSplit cfg m fs.pv) (covered : List Nat)
+    (hcf : ∀ q ∈ cProps m, q ∉ covered)
     (hc2 : (scan cs).proot = 0 → covered = [])
     (hc3 : (scan cs).proot ≠ 0 → ∃ t, treeFind fs.pd (scan cs).proot = some t ∧ TreeOK (allProps T) covered (scan cs).ptop t) :
     ∃ lv : LiveP, lv.top = (scan cs).ptop ∧ PagesPost cfg T fs m covered lv := by
   by_cases hr : (scan cs).proot = 0
-  · exact ⟨⟨(scan cs).ptop, [], 0⟩, rfl, pages_post_lv hcap1 h hns covered _ rfl hc2 (fun hne => absurd hr hne)⟩
+  · exact ⟨⟨(scan cs).ptop, [], 0⟩, rfl, pages_post_lv hcap1 h hns covered _ rfl hcf hc2 (fun hne => absurd hr hne)⟩
   · obtain ⟨t, hf, hok⟩ := hc3 hr
     obtain ⟨lv, last, hlv, hlo⟩ := hok.live
-    exact ⟨lv, hlv, pages_post_lv hcap1 h hns covered lv hlv hc2 (fun _ => ⟨t, last, hf, hlo⟩)⟩
+    exact ⟨lv, hlv, pages_post_lv hcap1 h hns covered lv hlv hcf hc2 (fun _ => ⟨t, last, hf, hlo⟩)⟩
 
 end Nervus.Crash
